@@ -114,6 +114,23 @@ _TRANSFORM_KINDS = {
 }
 
 
+# COLR v1 paint format numbers (OpenType spec table "Paint formats"), not read from the code under test
+_OT_FORMAT = {12: "PaintTransform", 14: "PaintTranslate", 16: "PaintScale", 18: "PaintScaleAroundCenter", 20: "PaintScaleUniform",
+              22: "PaintScaleUniformAroundCenter", 24: "PaintRotate", 26: "PaintRotateAroundCenter", 28: "PaintSkew", 30: "PaintSkewAroundCenter"}
+
+
+def ufo_paint_matrix(d) -> tuple:
+    """Matrix denoted by a ufo2ft/fontTools-builder paint dictionary ({"Format": n, field: value, ...}) per the spec"""
+    kind = _OT_FORMAT[int(d["Format"])]
+    f = {k: v for k, v in d.items() if k not in ("Format", "Paint")}
+    if "centerX" in f or "centerY" in f:
+        f["center"] = (f.pop("centerX"), f.pop("centerY"))
+    if kind == "PaintTransform":
+        t = f["Transform"]
+        f = {"transform": tuple(t) if not isinstance(t, dict) else (t["xx"], t["yx"], t["xy"], t["yy"], t["dx"], t["dy"])}
+    return spec_matrix(kind, **f)
+
+
 def paint_matrix(p) -> Optional[tuple]:
     """Spec matrix of a nanoemoji Paint dataclass instance, or None if not a transform."""
     kind = type(p).__name__
